@@ -11,9 +11,9 @@ Model: `Conn.step` (L2, `Conn/Model.lean`, `Conn/Step.lean`).  A Rust panic is t
 
 | site (model function) | Rust site | unreachable because | lemma |
 |---|---|---|---|
-| `releaseId` | `value_allocator.rs` range assertion / `value+1` overflow | always called after `is_used_id` (`releaseIfUsed`, `pubRefuseCleanup`), allocator refines a set (`PidWf`, C20) | `PidWf.dealloc_none`, `releaseId_s`, `releaseIfUsed_s` |
+| `releaseId` | `value_allocator.rs` range assertion / `value+1` overflow | always called after `is_used_id` (`releaseIfUsed`, `releasePacketId`, `pubRefuseCleanup`), allocator refines a set (`PidWf`, C20) | `PidWf.dealloc_none`, `releaseId_s`, `releaseIfUsed_s` |
 | `sendStoredLoop` | `publish_send_count += 1` (a `u32` since fix ab9a1ec) in `send_stored` | counter is reset on entry and grows by one per stored entry; stored ids are pairwise distinct (`StoreInv`) and lie in the allocator's range `[1, idMax]`, `idMax = 256^pw − 1 ≤ u32::MAX` for `pw ≤ 4` (`StoreRange`), so by pigeonhole at most `u32::MAX` entries are stored (`StoreRange.headroom`: `Headroom` is now a lemma, not a side condition) | `sendStoredLoop_s`, `sendStored_s`, `Rng.sr_step`, `Pigeon.keys_length_le` |
-| `storeAdd` | `store.add().unwrap()` (v3/v5 PUBLISH, PUBREL) | ownership: stored ids ⊆ wait sets (`StoreInv`), a legal send uses an id in no wait set (`IdFresh`); the automatic PUBREL follows the removal of the id from `pubrec` and of its stored PUBLISH | `StoreInv.fresh_not_stored`, `storeAdd_s`, `psV3Publish_goodV`, `psV5Publish_goodV`, `psPubrel_goodV`, `prPubrec_goodV` |
+| `storeAdd` | `store.add().unwrap()` (v3/v5 PUBLISH, PUBREL) | ownership: stored ids ⊆ wait sets (`StoreInv`), a legal send uses an id in no wait set (`IdFresh`), a legal `release` (fix ba1a812 removes the id from `puback` / `pubrec`) an id no stored packet carries — `C05_release_stored_then_reuse_panics`; the automatic PUBREL follows the removal of the id from `pubrec` and of its stored PUBLISH | `StoreInv.fresh_not_stored`, `storeAdd_s`, `psV3Publish_goodV`, `psV5Publish_goodV`, `psPubrel_goodV`, `prPubrec_goodV` |
 | `psV3Publish`, `psV5Publish` | `packet_id().unwrap()` | local contract `PubIdOk` | `psV3Publish_goodV`, `psV5Publish_goodV` |
 | `tasInsert` | `TopicAliasSend::insert_or_update` assert | topic non-empty, alias validated / chosen by `get_lru_alias` inside `[1, max]` (`TasInv`) | `tasInsert_s`, `TasInv.lruAlias`, `autoAlias_s` |
 | `psV5PublishTail` | `publish_send_count += 1` (`u32`) | gate `count < Receive Maximum ≤ 65535 < u32::MAX` (`Credit`) | `psV5PublishTail_goodV`, `rmBlocked_false` |
@@ -66,7 +66,9 @@ theorem C05_headroom (s : St) (hi : Inv s) (hn : s.panic = none) :
     every contract-respecting local call and every `recv` of ARBITRARY bytes with an arbitrary
     parser whose successful results are well formed returns without panic, and the state
     stays in the class.  No bound on the number of stored packets is assumed (`Legal` no longer
-    contains `Headroom`). -/
+    contains `Headroom`).  Since fix ba1a812 `Legal` restricts `release id` to identifiers that no
+    stored packet carries (the use `release_packet_id` is documented for: a packet the library did
+    not store); without it a panic is reachable, `C05_release_stored_then_reuse_panics`. -/
 theorem C05_no_panic (cfg : Cfg) (s : St) (op : Op) (hi : Inv s) (hn : s.panic = none)
     (hl : Legal cfg s op) :
     (step cfg s op).s.panic = none ∧ Inv (step cfg s op).s := by
